@@ -12,7 +12,7 @@ import random
 import numpy as np
 
 from . import meshgen as mg
-from .common import grid_of, result, ux
+from .common import FILL, grid_of, result, ux
 
 KIND_DIM = {"nodes": "n_node", "edge centers": "n_edge", "face centers": "n_face"}
 KINDS = ("nodes", "edge centers", "face centers")
@@ -358,3 +358,59 @@ def remap_history(tier, seed):
                             break
     return _result(cases, distinct, fails, f"{len(meshes)} source meshes x spherical/cartesian x NN/IDW x (remap | tree request) before "
                    "the source nodes are moved through the node_lon setter, then a second remap compared with brute force")
+
+
+# ---------------------------------------------------------------------------------------------- source-supplied face centres (added by main)
+def supplied_centres(tier, seed):
+    """Face-centred data on a grid whose face centres are SUPPLIED by the source as lon/lat only (and differ from the corner average):
+    nearest-neighbour remapping, spherical and cartesian, takes the value of the face whose supplied centre is nearest."""
+    import numpy as _np
+    rng = random.Random(seed * 2221 + 3)
+    fails, cases, distinct = [], 0, 0
+    for (nx, ny, lon0, lat0) in ((3, 3, -20.0, -10.0), (3, 2, 165.0, 30.0)) + (((4, 3, 40.0, -60.0),) if tier == "thorough" else ()):
+        m = mg.quad_patch(nx, ny, lon0=lon0, lat0=lat0, d=8.0)
+        lon, lat = _np.array(m["lon"], float), _np.array(m["lat"], float)
+        # centres pulled towards the first corner of each face (still inside the face)
+        flon, flat = [], []
+        for f in range(m["n_face"]):
+            c = mg.face_corners(m, f)
+            w = _np.array([0.55, 0.15, 0.15, 0.15])
+            lo = lon[c]
+            lo = _np.where(lo - lo[0] > 180, lo - 360, _np.where(lo - lo[0] < -180, lo + 360, lo))
+            flon.append(float((w * lo).sum()))
+            flat.append(float((w * lat[c]).sum()))
+        flon = ((_np.array(flon) + 180.0) % 360.0) - 180.0
+        flat = _np.array(flat)
+        S = _xyz(flon, flat)
+        dst = mg.quad_patch(nx + 1, ny + 1, lon0=lon0 + 1.7, lat0=lat0 + 1.1, d=5.5)
+        Dp = _xyz(dst["lon"], dst["lat"])
+        G = _gc(Dp, S)
+        order = _np.argsort(G, axis=1, kind="stable")
+        srt = _np.take_along_axis(G, order, axis=1)
+        clear = srt[:, 1] - srt[:, 0] > 1e-6
+        vals = _np.array([rng.uniform(-10, 10) for _ in range(m["n_face"])])
+        for coord in ("spherical", "cartesian"):
+            cases += 1
+            distinct += 1
+            gs = ux.Grid.from_topology(node_lon=lon.copy(), node_lat=lat.copy(), face_node_connectivity=_np.array(m["faces"]), fill_value=FILL,
+                                       face_lon=flon.copy(), face_lat=flat.copy())
+            da = ux.UxDataArray(vals.copy(), dims=["n_face"], uxgrid=gs, name="v")
+            inputs = {"source": m["name"] + " with face_lon / face_lat supplied (pulled towards the first corner)", "destination": dst["name"],
+                      "remap_to": "nodes", "coord_type": coord}
+            try:
+                got = _np.asarray(da.remap.nearest_neighbor(grid_of(dst), remap_to="nodes", coord_type=coord).values)
+            except Exception as e:  # noqa: BLE001
+                fails.append({"key": f"exception_{type(e).__name__}:nearest_neighbor:supplied_face_centres:{coord}", "what": f"raised {type(e).__name__}: {e}"[:300],
+                              "violated": "remapped data", "inputs": inputs, "observed": "exception", "expected": "remapped data"})
+                continue
+            exp = vals[order[:, 0]]
+            bad = clear & (got != exp)
+            if got.shape != exp.shape or bad.any():
+                j = int(_np.where(bad)[0][0]) if got.shape == exp.shape else 0
+                fails.append({"key": f"nn_value_of_nearest_source_element_of_the_data_kind:nearest_neighbor:supplied_face_centres:{coord}",
+                              "what": "face-centred data on a grid with source-supplied face centres: a destination node does not get the value "
+                                      "of the face whose (supplied) centre is nearest",
+                              "violated": "nearest-neighbour remapping takes the value of the great-circle nearest source element", "inputs": dict(inputs, destination_index=j),
+                              "observed": float(got[j]) if got.shape == exp.shape else list(got.shape), "expected": float(exp[j])})
+    bound = f"{distinct} remaps (2-3 quad patches incl. one across the antimeridian, face centres supplied as lon/lat and pulled towards a corner) x spherical / cartesian onto the nodes of another patch"
+    return result(cases, distinct, fails, bound, [])
